@@ -166,6 +166,28 @@ func runTranslate(r *prng.R, s *out.Sink, tier string) {
 				initRes = "returned-nil-without-starting"
 			}
 			s.Op(session+"/init/"+kind, true, fmt.Sprintf("tr init %s %s", ms, out.U16s(L)), initRes)
+			// direct monitors (independent of the model): two selected nodes of one party => refused; otherwise the backend is
+			// initialised with exactly the sorted party identifiers of the agreed nodes
+			{
+				var want []uint16
+				dupParty := false
+				seenP := map[uint16]bool{}
+				for _, u := range L {
+					p := uint16(membership[tss.UniversalID(u)])
+					if seenP[p] {
+						dupParty = true
+					}
+					seenP[p] = true
+					want = append(want, p)
+				}
+				sort.Slice(want, func(i, j int) bool { return want[i] < want[j] })
+				switch {
+				case dupParty && initRes != "refused":
+					s.Violate("C06", fmt.Sprintf("a %s session in which two selected nodes represent the same party was not refused (%s)", session, initRes), desc)
+				case !dupParty && initRes != "init "+out.U16s(want):
+					s.Violate("C06", fmt.Sprintf("%s: the backend was not initialised with exactly the sorted party identifiers %s of the agreed participants: %s", session, out.U16s(want), initRes), desc)
+				}
+			}
 			if len(s.Samples) < 8 {
 				s.Samples = append(s.Samples, desc+" => "+initRes)
 			}
@@ -187,6 +209,9 @@ func runTranslate(r *prng.R, s *out.Sink, tier string) {
 						}
 					}
 					s.Op(session+"/attr/"+kind, true, fmt.Sprintf("tr attr %s %d", ms, u), from)
+					if want := fmt.Sprint(uint16(membership[tss.UniversalID(u)])); from != want {
+						s.Violate("C06", fmt.Sprintf("%s: a message whose authenticated sender is node %d (party %s) reached the backend attributed to %s", session, u, want, from), desc)
+					}
 				}
 				// destinations of point-to-point sends to every party in the session and to one outside it
 				rg.takeSent()
